@@ -436,6 +436,13 @@ class Rig:
         if dest is not None and hasattr(h, "stats"):
             h.stats["queued_dest"] = True
         if origin == "retry" and hasattr(h, "stats"):
+            # every attempt gets its whole timeout: retry() fires at most once per T (whatever keeps the retransmission in the queue)
+            prev = h.stats.get("last_retry_us")
+            h.stats["last_retry_us"] = self.clk.us
+            t_us = to_us(h._timeout_in_seconds)
+            if prev is not None and t_us > 0 and self.clk.us - prev < t_us and not h.stats.get("foreign"):   # (foreign = a scripted handler called retry() itself)
+                self.violation("retry:before-timeout-elapsed", f"consecutive retransmissions of one request at least its timeout ({t_us} us) apart",
+                               f"handler {h.hid}: retry() queued retransmissions at {prev} us and {self.clk.us} us")
             h.stats["retry_enq"] += 1
             if h.stats["retry_enq"] > h.row["retries"]:
                 self.violation("retry:more-than-N-retransmissions", "a handler constructed with retry_count N is re-queued by retry() at most N times",
@@ -734,6 +741,11 @@ def gen_script(ctx, rng, rig, maxops):
 
 
 CORPUS = [
+    # a request (T = 100 ms, N = 3) times out while three other sends sit in front of its retransmission in the throttled queue:
+    # the retransmission leaves 60 ms later; the request must still get a whole timeout per attempt
+    ["new 0", "spec 1 1 0 100000 3 r 1", "spec 2 0 0 0 0 n 1", "reg 1", "qs 1 3", "iter 20001 0 -", "qs 2 4", "qs 2 4", "qs 2 4",
+     "iter 0 100001 -", "iter 20001 0 -", "iter 20001 0 -", "iter 20001 0 -", "iter 20001 0 -", "iter 20001 0 -", "iter 0 100001 -",
+     "iter 20001 0 -", "iter 0 100001 -", "iter 20001 0 -", "iter 0 100001 -", "iter 20001 0 -"],
     # F1 (fixed in 0fc5c99): B (timeout 15 ms < throttle period) is queued right after A was sent: B times out before its first transmission
     ["new 0", "spec 1 0 0 0 0 n 1", "spec 2 0 0 15000 2 r 1", "reg 1", "qs 1 3", "iter 20001 1000 -", "create 2", "reg 2", "qs 2 4",
      "iter 1000 14001 -", "iter 5001 1000 -", "iter 20001 1000 -", "iter 20001 1000 -", "iter 20001 1000 -", "iter 20001 1000 -"],
